@@ -118,7 +118,9 @@ async fn burst_case(rng: &mut Rng, n: usize, queue: u32, pipe: usize) -> (String
     expect_frames.push(fr);
     tx.send_message_with_payload(msg, pb);
   }
-  // the peer reads in irregular pieces
+  // the peer reads in irregular pieces (own random stream: how often this loop runs must not shift later cases)
+  let mut rrng = rng.fork();
+  let rng = &mut rrng;
   let mut got = Vec::new();
   let mut buf = vec![0u8; 70000];
   let mut idle = 0;
@@ -268,6 +270,10 @@ async fn wav_case(rng: &mut Rng) -> (String, String) {
       break;
     }
     acc += a;
+  }
+  if total == 0 {
+    // only empty slices: `write_all_vectored` still makes one call, which cannot accept anything
+    accepts.push(0);
   }
   let mut ios: Vec<IoSlice<'_>> = slices.iter().map(|s| IoSlice::new(s)).collect();
   let mut w = ScriptW { accepts: accepts.clone(), i: 0, written: Vec::new() };
